@@ -383,7 +383,7 @@ class Runner:
         vals = {}
         # only assignments made while control is in a function *defined by the harness* count: callee locals may carry the same names
         # (e.g. `b`, `r`).  Call lines read "↳ <call-site file>:<line> <callee>(args)".
-        hsrc = open(os.path.join(VERIF, 'harness', inst.harness)).read()
+        hsrc = open(os.path.join(VERIF, 'harness', inst.harness)).read() + '\n' + '\n'.join(inst.files.values())
         hfuncs = set(re.findall(r'^[A-Za-z_][\w \t\*]*?\b([A-Za-z_]\w*)\s*\([^;{]*\)\s*\{', hsrc, re.M)) | {'main'}
         stack = [True]
         for line in body.split('\n'):
